@@ -246,10 +246,12 @@ func genLevel(r *hx.RNG, kind byte, o genOpts) string {
 
 func genRule(r *hx.RNG, o genOpts) rule {
 	k := hx.Pick(r, o.kinds)
-	if r.Chance(35) {
-		k = 's'
-	} else if r.Chance(25) {
-		k = 'k'
+	if len(o.kinds) == len(kinds) { // all kinds allowed: favour the two richest ones
+		if r.Chance(35) {
+			k = 's'
+		} else if r.Chance(25) {
+			k = 'k'
+		}
 	}
 	ru := rule{kind: k, pfx: r.Chance(45), name: hx.Pick(r, o.names), pol: genLevel(r, k, o)}
 	if k == 's' && r.Chance(35) {
@@ -831,6 +833,10 @@ func authCase(run *hx.Run, r *hx.RNG, exhaustive *[]policy) {
 		o.kinds = []byte{hx.Pick(r, []byte{'s', 'k', 'n'})}
 		run.Tag("auth:gen:narrow")
 	default:
+		// all names, but only two to four rule kinds, so that rules of several policies meet
+		ks := append([]byte(nil), kinds...)
+		hx.Shuffle(r, ks)
+		o.kinds = ks[:2+r.Intn(3)]
 		run.Tag("auth:gen:wide")
 	}
 	if exhaustive != nil {
@@ -1028,10 +1034,16 @@ func tagShapes(run *hx.Run, ps []policy, names []string, pd decisions) {
 		run.Tag("auth:shape:exact-and-prefix-same-name")
 	}
 	rf := newRef(ps)
+	present := map[byte]bool{}
+	for k := range slots {
+		present[k.kind] = true
+	}
 	for _, n := range names {
-		for _, k := range []byte{'s', 'k', 'n'} {
-			_, _, why := rf.effective(k, false, n)
-			run.Tag("auth:lookup:" + why)
+		for _, k := range kinds {
+			if present[k] { // only rule kinds that occur at all in this case
+				_, _, why := rf.effective(k, false, n)
+				run.Tag("auth:lookup:" + why)
+			}
 		}
 	}
 	for _, row := range pd.named {
@@ -1793,11 +1805,11 @@ func main() {
 	start := time.Now()
 	aliasWitness(run)
 	negativeWitness(run)
-	nAuth := run.Scale(1500, 30000)
+	nAuth := run.Scale(1500, 24000)
 	for i := 0; i < nAuth; i++ {
 		authCase(run, run.RNG.Fork(uint64(i)), nil)
 	}
-	nSeq := run.Scale(150, 2500)
+	nSeq := run.Scale(150, 2000)
 	for i := 0; i < nSeq; i++ {
 		runSeq(run, run.RNG.Fork(uint64(1_000_000+i)), "compile")
 		runSeq(run, run.RNG.Fork(uint64(2_000_000+i)), "resolve")
